@@ -6,7 +6,9 @@ from typing import (
     AsyncIterator,
     Awaitable,
     Callable,
+    List,
     MutableMapping,
+    Sequence,
 )
 
 from ..concurrency import run_in_threadpool
@@ -55,9 +57,22 @@ class NextResponse(StreamingResponse):
     This is a response object for middleware.
     """
 
+    # `Set-Cookie` lines of the inner application. They cannot be combined into
+    # one comma separated header like other repeated headers.
+    raw_set_cookies: Sequence[str] = ()
+
     async def render_stream(self) -> AsyncGenerator[bytes, None]:
         async for chunk in self.iterable:
             yield chunk
+
+    def list_headers(self, *, as_bytes):
+        headers = super().list_headers(as_bytes=as_bytes)
+        for line in self.raw_set_cookies:
+            if as_bytes:
+                headers.append((b"set-cookie", line.encode("latin-1")))
+            else:
+                headers.append(("set-cookie", line))
+        return headers
 
     @classmethod
     async def from_app(cls, app: ASGIApp, request: NextRequest) -> "NextResponse":
@@ -66,6 +81,7 @@ class NextResponse(StreamingResponse):
         """
         status_code = 200
         headers = Headers()
+        set_cookies: List[str] = []
         body = CachedStream()
 
         async def send(message: Message) -> None:
@@ -73,11 +89,15 @@ class NextResponse(StreamingResponse):
             nonlocal headers
             if message["type"] == "http.response.start":
                 status_code = message["status"]
+                response_headers = [
+                    (k.decode("latin-1"), v.decode("latin-1"))
+                    for k, v in message.get("headers", [])
+                ]
+                set_cookies[:] = [
+                    v for k, v in response_headers if k.lower() == "set-cookie"
+                ]
                 headers = Headers(
-                    [
-                        (k.decode("latin-1"), v.decode("latin-1"))
-                        for k, v in message.get("headers", [])
-                    ]
+                    [(k, v) for k, v in response_headers if k.lower() != "set-cookie"]
                 )
             elif message["type"] == "http.response.body":
                 await body.push(message.get("body", b""))
@@ -85,7 +105,9 @@ class NextResponse(StreamingResponse):
                     await body.push_eof()
 
         await app(request, request._receive, send)
-        return NextResponse(body, status_code, headers)
+        response = NextResponse(body, status_code, headers)
+        response.raw_set_cookies = set_cookies
+        return response
 
 
 def middleware(
